@@ -958,10 +958,13 @@ void bn_rec_frb(bn_t *ki, int sub, const bn_t k, const bn_t x, const bn_t n,
 	int i, l, sk, sx;
 	bn_t u[4], v[4];
 
+	for (i = 0; i < 4; i++) {
+		bn_null(u[i]);
+		bn_null(v[i]);
+	}
+
 	RLC_TRY {
 		for (i = 0; i < 4; i++) {
-			bn_null(u[i]);
-			bn_null(v[i]);
 			bn_new(u[i]);
 			bn_new(v[i]);
 		}
